@@ -115,6 +115,7 @@ class FakeSocket:
             return e.errno or 111
 
     def recv(self, n, flags=0):
+        ACTIVITY[0] += 1
         if self.chunks is None:
             raise OSError(57, 'Socket is not connected')
         if not self.chunks:
@@ -128,6 +129,7 @@ class FakeSocket:
         return c
 
     def send(self, data):
+        ACTIVITY[0] += 1
         self.sent.append(bytes(data))
         if self.peer is not None:
             self.peer.log.append(bytes(data))
@@ -139,6 +141,7 @@ class FakeSocket:
         pass
 
     def close(self):
+        ACTIVITY[0] += 1
         self.closed = True
 
     def fileno(self):
@@ -179,6 +182,7 @@ class FakeNet:
         self.lock = threading.Lock()
 
     def note(self, *ev):
+        ACTIVITY[0] += 1
         with self.lock:
             self.events.append(ev)
 
@@ -201,6 +205,7 @@ class FakeNet:
         """every fake socket is readable at once (its script decides what recv returns), except one whose script says PENDING: the peer accepted the
         connection and says nothing (a tarpit); when nothing is readable the call takes a little time, like a real select() with a timeout"""
         self.selects = getattr(self, 'selects', 0) + 1
+        ACTIVITY[0] += 1
         if self.selects > getattr(self, 'select_budget', 3000):
             raise SystemExit(99)          # a hang: the audit keeps polling connections that will never answer
         ready = [s for s in rlist if isinstance(s, FakeSocket) and not (s.chunks and s.chunks[0] is PENDING)]
@@ -222,9 +227,10 @@ class FakeNet:
         _select.select = self._real_select
 
 
-RUN_LIMIT_S = 150
-AFTER_HANG_LIMIT_S = 8
+TICK_CPU_S = 20           # CPU seconds of the audit process without a single call into the scripted network = looping, not waiting
+AFTER_HANG_TICK_CPU_S = 5
 HANGS = [0]
+ACTIVITY = [0]            # bumped by every socket / select / resolver call
 
 
 class Hang(BaseException):
@@ -245,15 +251,20 @@ def run_main(argv, net):
     old = sys.argv
     sys.argv = ['ssh-audit.py'] + list(argv)
     status = None
-    # watchdog: the scripted network answers at once and never blocks, so an audit still running after RUN_LIMIT_S seconds of wall time
-    # is not waiting for the peer, it is looping; it is stopped and reported with the status 'hang' (no oracle accepts that status)
+    # watchdog: the scripted network answers at once and never blocks, so an audit that burns TICK_CPU_S seconds of CPU time (a profiling
+    # timer: machine load does not count) without a single call into the network is not waiting for the peer, it is looping; it is stopped
+    # and reported with the status 'hang' (no oracle accepts that status).  Loops that do call the network run into the read/select budgets.
     import signal, threading
     watch = threading.current_thread() is threading.main_thread() and hasattr(signal, 'setitimer')
     if watch:
-        def _on_alarm(signum, frame):
-            raise Hang('audit still running after %d s against a peer that never blocks' % (RUN_LIMIT_S if not HANGS[0] else AFTER_HANG_LIMIT_S))
-        old_handler = signal.signal(signal.SIGALRM, _on_alarm)
-        signal.setitimer(signal.ITIMER_REAL, RUN_LIMIT_S if not HANGS[0] else AFTER_HANG_LIMIT_S)      # (once one run hung, later ones get little patience)
+        tick = TICK_CPU_S if not HANGS[0] else AFTER_HANG_TICK_CPU_S
+        seen = [ACTIVITY[0]]
+        def _on_tick(signum, frame):
+            if ACTIVITY[0] == seen[0]:
+                raise Hang('audit used %d s of CPU time without touching the network: it is looping' % tick)
+            seen[0] = ACTIVITY[0]
+        old_handler = signal.signal(signal.SIGPROF, _on_tick)
+        signal.setitimer(signal.ITIMER_PROF, tick, tick)
     try:
         with net, contextlib.redirect_stdout(buf), contextlib.redirect_stderr(io.StringIO()):
             try:
@@ -269,8 +280,8 @@ def run_main(argv, net):
                 print(traceback.format_exc())
     finally:
         if watch:
-            signal.setitimer(signal.ITIMER_REAL, 0)
-            signal.signal(signal.SIGALRM, old_handler)
+            signal.setitimer(signal.ITIMER_PROF, 0)
+            signal.signal(signal.SIGPROF, old_handler)
         sys.argv = old
     return status, buf.getvalue()
 
@@ -377,6 +388,7 @@ class ServerSocket(FakeSocket):
             self.peer.conn_log[self.n]['closed'] = True
 
     def send(self, data):
+        ACTIVITY[0] += 1
         if not isinstance(self.peer, Server):
             return FakeSocket.send(self, data)
         self.inbuf += bytes(data)
@@ -456,6 +468,7 @@ class ServerSocket(FakeSocket):
             self.chunks.append(None)           # protocol error: a real server disconnects
 
     def recv(self, n, flags=0):
+        ACTIVITY[0] += 1
         self.net.recv_calls = getattr(self.net, 'recv_calls', 0) + 1
         if self.net.recv_calls > getattr(self.net, 'recv_budget', 200000):
             raise SystemExit(99)          # a hang: the audit keeps reading although the peer has nothing more to say
